@@ -1,12 +1,14 @@
 //! One module per property; `dispatch` routes (property, leg) to a workload.
 use crate::rt::{Args, Report};
 
+pub mod c01;
 pub mod c03;
 pub mod c05;
 pub mod c13;
 
 pub fn dispatch(a: &Args) -> Option<Report> {
     match a.prop.as_str() {
+        "C01" => c01::run(a),
         "C03" => c03::run(a),
         "C05" => c05::run(a),
         "C13" => c13::run(a),
